@@ -86,7 +86,7 @@ def fileio_jobs(Job, cfg=CFG_NDEBUG, tier="quick"):
     return js
 
 
-IDENT_GROUP = ["smells_like_hdfs", "get_dfs_sector_count", "get_hdfs_sector_count", "smells_like_watford"]
+IDENT_GROUP = ["smells_like_hdfs", "get_dfs_sector_count", "get_hdfs_sector_count", "smells_like_watford", "smells_like_acorn_dfs", "probe_format"]
 
 
 def ident_jobs(Job, cfg=CFG_NDEBUG, tier="quick"):
@@ -96,7 +96,10 @@ def ident_jobs(Job, cfg=CFG_NDEBUG, tier="quick"):
     return [J("smells_like_hdfs", "h_hdfs", ["smells_like_hdfs"]),
             J("get_dfs_sector_count", "h_dfs_count", ["get_dfs_sector_count"]),
             J("get_hdfs_sector_count", "h_hdfs_count", ["get_hdfs_sector_count"]),
-            J("smells_like_watford", "h_watford", ["smells_like_watford"], loops=True, cover=True)]
+            J("smells_like_watford", "h_watford", ["smells_like_watford"], loops=True, cover=True),
+            J("smells_like_acorn_dfs", "h_acorn", ["smells_like_acorn_dfs"], replace=["smells_like_watford"]),
+            J("probe_format", "h_probe_format", ["probe_format"],
+              replace=["smells_like_hdfs", "smells_like_watford", "smells_like_acorn_dfs", "get_dfs_sector_count", "get_hdfs_sector_count"], cover=True)]
 
 
 STORAGE_GROUP = ["SurfaceSelector_opposite_surface", "SurfaceSelector_corresponding_side_of_next_device",
@@ -305,7 +308,7 @@ def c02_extra(Job, tier):
     cfg = CFG_NDEBUG
     return [Job("D_info_line_%s" % cfg[0], "harness/dfs_info.c", "h_info_line", enforce=["info_line"], defines=list(cfg[1]),
                 extract=ext(INFO_GROUP), tier="quick", solver="portfolio",
-                cbmc=["--unwindset", "CatalogEntry_name.0:8", "--unwinding-assertions"])]
+                cbmc=["--unwindset", "CatalogEntry_name.0:8", "--unwinding-assertions"])] + catsort_jobs(Job)
 
 
 # ---- write_span of extract-unused (C11 dfs half, C14) ---------------------------------------------------------------
@@ -319,7 +322,7 @@ def c11_jobs(Job, tier):            # noqa: F811  (replaces the placeholder abov
 
 
 def c14_extra(Job, tier):
-    return write_span_jobs(Job)
+    return write_span_jobs(Job) + space_jobs(Job)
 
 
 # ---- check_track_is_supported (C06 iii, C07) -------------------------------------------------------------------------
@@ -477,3 +480,40 @@ def fsp_jobs(Job, cfg=CFG_NDEBUG, tier="quick"):
 
 def c15_extra(Job, tier):
     return fsp_jobs(Job)
+
+
+def catsort_jobs(Job, cfg=CFG_NDEBUG, tier="quick"):
+    g = ["cat_mapdir", "cat_compare_entries"]
+    return [Job("D_cat_mapdir_%s" % cfg[0], "harness/dfs_catsort.c", "h_cat_mapdir", enforce=["cat_mapdir"], defines=list(cfg[1]), extract=ext(g), tier=tier),
+            Job("D_cat_compare_entries_%s" % cfg[0], "harness/dfs_catsort.c", "h_cat_compare", enforce=["cat_compare_entries"], replace=["cat_mapdir"],
+                defines=list(cfg[1]), extract=ext(g), tier=tier)]
+
+
+SPACE_GROUP = ["sector_count", "CatalogEntry_metadata_byte", "CatalogEntry_metadata_word", "CatalogEntry_start_sector",
+               "catalog_sectors_for_format", "data_sectors_reserved_for_catalog", "space_maybe_gap", "space_add_initial_gap"]
+
+
+def space_jobs(Job, cfg=CFG_NDEBUG, tier="quick"):
+    def J(name, entry, enforce, **kw):
+        return Job("D_%s_%s" % (name, cfg[0]), "harness/dfs_space.c", entry, enforce=enforce, defines=list(cfg[1]), extract=ext(SPACE_GROUP), tier=tier, **kw)
+    return [J("catalog_sectors_for_format", "h_cat_sectors", ["catalog_sectors_for_format"]),
+            J("data_sectors_reserved_for_catalog", "h_reserved", ["data_sectors_reserved_for_catalog"], replace=["catalog_sectors_for_format"]),
+            J("space_maybe_gap", "h_maybe_gap", ["space_maybe_gap"]),
+            J("space_add_initial_gap", "h_add_initial_gap", ["space_add_initial_gap"],
+              replace=["space_maybe_gap", "data_sectors_reserved_for_catalog", "catalog_sectors_for_format", "CatalogEntry_start_sector"])]
+
+
+GEOM_GROUP = ["sector_count", "Geometry_total_sectors", "single_sided_filesystem", "geom_large_enough", "geom_other_side_has_catalog_too", "geom_compare_formats"]
+
+
+def geometry_jobs(Job, cfg=CFG_NDEBUG, tier="quick"):
+    def J(name, entry, enforce, **kw):
+        return Job("D_%s_%s" % (name, cfg[0]), "harness/dfs_geometry.c", entry, enforce=enforce, defines=list(cfg[1]), extract=ext(GEOM_GROUP), tier=tier, solver="portfolio", **kw)
+    return [J("single_sided_filesystem", "h_single_sided", ["single_sided_filesystem"]),
+            J("geom_large_enough", "h_large_enough", ["geom_large_enough"], replace=["single_sided_filesystem", "Geometry_total_sectors", "sector_count"]),
+            J("geom_other_side_has_catalog_too", "h_other_side", ["geom_other_side_has_catalog_too"], replace=["sector_count"]),
+            J("geom_compare_formats", "h_compare_formats", ["geom_compare_formats"], replace=["Geometry_total_sectors"])]
+
+
+def c13_extra(Job, tier):
+    return geometry_jobs(Job)
